@@ -23,3 +23,114 @@ Definition close_active_fsync_fails (s : storage) : storage := s.
 Definition rotation_create_fails (s : storage) : storage :=
   {| s_active := s_active s; s_closed := s_closed s; s_next := s_next s + 1; s_corrupted := s_corrupted s; s_alive := s_alive s;
      s_dump_req := s_dump_req s; s_aged := s_aged s; s_open := s_open s; s_f2 := s_f2 s |}.
+
+(* ================= one failed file operation inside a CLIENT call (C11, second part) =================
+
+   Read off the repaired Rust (src/storage/core.rs, src/blob/core.rs, src/blob/file.rs); the states are named
+   with the vocabulary of Cancel.v, because a failed file operation makes the call stop (or skip one blob) at one
+   of the places where a dropped future stops.
+
+   write    the creation of the missing active blob fails (file create / header append / sync): one blob id is
+            used up, no blob is installed, Err                                            `burn_id s`
+            the record append fails: the size counter of the file falls back, Blob::write returns before
+            index.push, Err                                                               `ensure_active s`
+            (a SHORT write leaves torn bytes behind the last record; the L3 model has whole records only and
+             cannot express them: this is finding F21, the bytes are overwritten by the next append or rejected
+             by the record validation of the next start, see C05/C12)
+            the background sync fails: logged, nothing changes                            completed
+   delete   the active blob is treated like a write of the marker: Err, `burn_id s` or `delete_start s oip`;
+            then ALL closed blobs holding the key are processed and the per-blob results collected: a failure in
+            one blob is LOGGED and counted as 0, the others are processed normally. Loading the index of a blob
+            cannot fail at this level (on any error the index is regenerated from the blob: `blob_load_index`
+            is that already), so the failure is the append of the marker: the blob stays with its index loaded
+            and no marker (`ds_loaded`); a blob is never left with marker bytes that are not indexed
+            (`ds_bytes`). The call returns Ok(number of blobs marked); the deferred index dump is requested
+            iff that number is positive.
+   close_active     the sync (done while the blob still is the active one) fails: Err, state unchanged
+   restore_active   loading the index fails: it is regenerated (`blob_load_index`), not a failure here; if the
+                    regeneration fails: Err, the state unchanged, or the last closed blob in place with the
+                    index loaded (both allowed)
+   create_active    Err, `burn_id s`
+   reads, counts    Err (or the blob is skipped and the failure logged): no effect on the state
+   background       failed index dump (`dump_fails_on` = identity), failed blob creation during rotation
+                    (`rotation_create_fails`), failed background sync (identity).                              *)
+Require Import Pearl.Storage.Cancel.
+
+Section FaultOutcomes.
+Variable K : N.
+Variable cfg : config.
+
+(* the loop over the closed blobs of a delete; `fails` says, slot by slot, where the marker append fails.
+   Result: the slots and the number of blobs marked *)
+Fixpoint delete_in_closed_faulty (l : list (option blob)) (mk : rec) (fails : list bool) : list (option blob) * N :=
+  match l with
+  | [] => ([], 0)
+  | None :: r => let '(r', n) := delete_in_closed_faulty r mk (tl fails) in (None :: r', n)
+  | Some b :: r =>
+    let '(r', n) := delete_in_closed_faulty r mk (tl fails) in
+    if delete_applies b mk true then
+      if hd false fails
+      then (Some (blob_load_index K b) :: r', n)                           (* logged, counted as 0 *)
+      else (Some (fst (blob_append (blob_load_index K b) mk)) :: r', n + 1)
+    else (Some b :: r', n)                                                 (* the blob does not hold the key *)
+  end.
+
+(* the blobs after the delete (the active blob has been processed completely, or the call had returned Err) *)
+Definition delete_faulty_blobs (s : storage) (mk : rec) (oip : bool) (fails : list bool) : storage :=
+  upd_closed (delete_active_done K (delete_start s oip) mk oip)
+             (fst (delete_in_closed_faulty (s_closed (delete_start s oip)) mk fails)).
+
+Definition delete_faulty_marked (s : storage) (mk : rec) (oip : bool) (fails : list bool) : N :=
+  snd (delete_in_closed_faulty (s_closed (delete_start s oip)) mk fails).
+
+(* the state the call leaves: the dump of the indexes is requested iff some closed blob was marked *)
+Definition delete_faulty (s : storage) (mk : rec) (oip : bool) (fails : list bool) : storage :=
+  if 0 <? delete_faulty_marked s mk oip fails
+  then request_dump (delete_faulty_blobs s mk oip fails)
+  else delete_faulty_blobs s mk oip fails.
+
+(* the number the call returns *)
+Definition delete_faulty_answer (s : storage) (mk : rec) (oip : bool) (fails : list bool) : out :=
+  RNum ((match s_active (delete_start s oip) with
+         | Some b => if delete_applies b mk oip then 1 else 0
+         | None => 0 end) + delete_faulty_marked s mk oip fails).
+
+Definition read_op (o : op) : bool :=
+  match o with ORead _ | OReadWith _ _ | OContains _ | OReadAll _ | OReadAllDm _ | OCounts => true | _ => false end.
+
+(* the failed file operation makes the CALL return an error *)
+Inductive fault_error (s : storage) : op -> storage -> Prop :=
+| fe_write_create k ts meta msize dlen dseed :
+    s_open s = true -> s_active s = None -> fault_error s (OWrite k ts meta msize dlen dseed) (burn_id s)
+| fe_write_append k ts meta msize dlen dseed :
+    s_open s = true -> fault_error s (OWrite k ts meta msize dlen dseed) (append_fails (ensure_active s))
+| fe_delete_create k ts meta msize oip :
+    s_open s = true -> oip = false -> s_active s = None -> fault_error s (ODelete k ts meta msize oip) (burn_id s)
+| fe_delete_active k ts meta msize oip :
+    s_open s = true -> fault_error s (ODelete k ts meta msize oip) (append_fails (delete_start s oip))
+| fe_close_sync : fault_error s OCloseActive (close_active_fsync_fails s)
+| fe_restore_unchanged : fault_error s ORestoreActive s
+| fe_restore_loaded :
+    s_open s = true -> s_active s = None ->
+    fault_error s ORestoreActive (upd_closed s (map_last_occupied (blob_load_index K) (s_closed s)))
+| fe_create : s_open s = true -> s_active s = None -> fault_error s OCreateActive (burn_id s)
+| fe_read o : read_op o = true -> fault_error s o s.
+
+(* the failure is logged, the call returns Ok *)
+Inductive fault_logged (s : storage) : op -> storage -> Prop :=
+| fl_inessential o :           (* e.g. the background sync, or an index file that is unreadable and regenerated *)
+    public_op o = true -> fault_logged s o (fst (step K cfg s o))
+| fl_delete_closed k ts meta msize oip fails :
+    s_open s = true ->
+    fault_logged s (ODelete k ts meta msize oip) (delete_faulty s (mk_rec k ts true meta msize 0 0) oip fails).
+
+(* every state one failed file operation inside the public operation `o` started in `s` may leave *)
+Definition fault_outcomes (s : storage) (o : op) (s' : storage) : Prop := fault_error s o s' \/ fault_logged s o s'.
+
+End FaultOutcomes.
+
+(* the background faults *)
+Inductive bg_fault_outcomes (s : storage) : storage -> Prop :=
+| bf_dump id : bg_fault_outcomes s (dump_fails_on s id)
+| bf_rotation : bg_fault_outcomes s (rotation_create_fails s)
+| bf_sync : bg_fault_outcomes s s.
